@@ -93,6 +93,32 @@ func moreHelperOps(r *hlib.Run, rng *hlib.Rand, n int) []string {
 	return ops
 }
 
+// ---- slice helpers of the public header (what cgen emits for s[i ..], s[.. j], s[i .. j])
+
+func subsliceOps(r *hlib.Run, rng *hlib.Rand, n int) []string {
+	ops := []string{"subslice i NULL 0 0", "subslice j NULL 0 0", "subslice ij NULL 0 0", "subslice i NULL 1 0", "subslice ij 0 0 0"}
+	for i := 0; i < n; i++ {
+		kind := []string{"i", "j", "ij"}[rng.Intn(3)]
+		ln := fmt.Sprint(rng.Intn(20))
+		if rng.Chance(1, 6) {
+			ln = "NULL"
+		}
+		l, _ := strconv.Atoi(ln)
+		a, b := rng.Intn(24), rng.Intn(24)
+		switch rng.Intn(4) { // at the bounds
+		case 0:
+			a, b = l, l
+		case 1:
+			a, b = 0, l
+		case 2:
+			b = l + 1
+		}
+		ops = append(ops, fmt.Sprintf("subslice %s %s %d %d", kind, ln, a, b))
+		r.Count("helper:subslice_" + kind)
+	}
+	return ops
+}
+
 // ---- status predicates
 
 var statusDefRe = regexp.MustCompile(`(?m)^const char (wuffs_[a-z0-9_]+__(error|note|suspension)__[a-z0-9_]+)\[\] = "((?:[^"\\]|\\.)*)";`)
